@@ -106,16 +106,23 @@ func c03Big(n int, fill byte) []byte { return bytes.Repeat([]byte{fill}, n) }
 
 // one block's worth of mutations; big selects values large enough to split the commit
 func c03Mutate(st *AccountDB, e *c03Expect, tag string, big bool) {
-	v := new(big0).SetUint64([]uint64{0, 1, 1000000000000000000}[symx.Choice(tag+".balance", 3)])
+	bals, nonces := []uint64{0, 1000000000000000000}, []uint64{0, 128}
+	if symx.Thorough() {
+		bals, nonces = []uint64{0, 1, 1000000000000000000}, []uint64{0, 1, 127, 128, 1 << 40}
+	}
+	v := new(big0).SetUint64(bals[symx.Choice(tag+".balance", len(bals))])
 	st.SetBalance(c03Addrs[0], v)
 	e.balance[c03Addrs[0]] = v
-	n := []uint64{0, 1, 127, 128, 1 << 40}[symx.Choice(tag+".nonce", 5)]
+	n := nonces[symx.Choice(tag+".nonce", len(nonces))]
 	st.SetNonce(c03Addrs[1], n)
 	e.nonce[c03Addrs[1]] = n
 	b := new(big0).SetUint64(uint64(symx.Choice(tag+".balanceB", 2)) + 1)
 	st.SetBalance(c03Addrs[1], b)
 	e.balance[c03Addrs[1]] = b
 	small := []byte{symx.U8(tag + ".slot"), 1}
+	// block execution ends with IntermediateRoot(true) (core/vmexecutor.go) before the state is
+	// committed: Finalise drains the dirty storage sets. Both orders are explored.
+	mid := symx.Choice(tag+".finalise", 2)
 	for i, a := range c03Addrs {
 		if e.data[a] == nil {
 			e.data[a] = map[string][]byte{}
@@ -127,6 +134,9 @@ func c03Mutate(st *AccountDB, e *c03Expect, tag string, big bool) {
 			st.SetData(a, []byte("big"+tag), val)
 			e.data[a]["big"+tag] = val
 		}
+	}
+	if mid == 1 {
+		st.IntermediateRoot(true)
 	}
 }
 
